@@ -172,3 +172,9 @@ def run(ctx):
     except Skip:
         pass
     ctx.floor(rule, 4)
+
+    # ------------- the aggregation-parameter constructor admits every level 0..=65535 (shared with C20), and the
+    # IDPF cache keys used by Poplar1's RingBufferCache are canonical (shared with C06)
+    from rules import c20, c06
+    c20.constructor_rules(ctx, "R-C03.G.aggparam")
+    c06.run_keys(ctx)
